@@ -777,3 +777,7 @@ def ranges_open(u: Unit):
                             u.oblige(p, f"ranges.open.accept_implies_inside_target{tag}", z3.And(*inside), w, OPEN_REPLAY)
                     u.static(f"ranges.open.explored{tag}", len(ps) >= 1, fi.qualname, f"{len(ps)} paths, {n_acc} accepting")
 unit("C11", "resimulation.layout")(_CR.layout_unit)      # the returned simulated data can be read from the tree the re-simulation produces
+# "the champion fitness reported after each evolution is never worse than before" rests on the reported champions being the archipelago's
+# own champions (best individual EVER seen per island: pygmo's contract, trusted) and not, e.g., the best of the current population
+unit("C11", "report.champions")(_CR.champions_unit)
+STANDIN = dict(globals().get("STANDIN", {}), **{r"report\.": _CR.CHAMP_REPLAY})
